@@ -18,7 +18,7 @@ type Case struct {
 	Holder  *Message
 }
 
-var Contexts = []string{"top", "nested", "flattened", "arm-message", "array-element", "map-value", "oneof-arm-scalar", "exposed-oneof"}
+var Contexts = []string{"top", "nested", "flattened", "arm-message", "array-element", "map-value", "oneof-arm-scalar", "exposed-oneof", "odd-name"}
 
 func labelsFor(k Kind) []Label {
 	switch k {
@@ -77,6 +77,11 @@ func buildContext(k Kind, l Label, ctx string) *Case {
 	holder := &Message{Name: "Holder", Fields: []*Field{f}, Full: true}
 	switch ctx {
 	case "top":
+		root = &Message{Name: "T", Fields: []*Field{f}, Full: true}
+		holder = root
+	case "odd-name":
+		// a field whose protobuf JSON name (userID) differs from other camel-casing conventions (userId)
+		f.Name, f.JSON = "user_ID", "userID"
 		root = &Message{Name: "T", Fields: []*Field{f}, Full: true}
 		holder = root
 	case "nested":
